@@ -77,6 +77,12 @@ type Typed struct {
 	no  int
 }
 
+// Node is a finite linked list: a struct with a pointer to its own type.
+type Node struct {
+	Val  interface{}
+	Next *Node
+}
+
 // MyStr is a named string type (also usable as a map key type).
 type MyStr string
 
@@ -187,6 +193,7 @@ var declared = map[string]reflect.Type{
 	"OuterS": reflect.TypeOf(OuterS{}),
 	"Uni":    reflect.TypeOf(Uni{}),
 	"Typed":  reflect.TypeOf(Typed{}),
+	"Node":   reflect.TypeOf(Node{}),
 	"OuterMV": reflect.TypeOf(OuterMV{}), "OuterPM": reflect.TypeOf(OuterPM{}), "OuterPMP": reflect.TypeOf(OuterPMP{}),
 	"PMoney": reflect.TypeOf(PMoney{}), "PAny": reflect.TypeOf(PAny{}),
 }
